@@ -50,26 +50,41 @@ def case(ctx, rng, idx, state):
     ders = [0, 1, 2, 3] if nk * nw * nw * len(iR) < 60000 else [0, 1, 2]
     wit = dict(history=hist, nw=nw, NK=NK, dK=dK, nR=len(iR), centers=cmode, keys=keys, aliasing=aliasing)
 
-    ref = {}
+    # a second grid shift for the same grid: one Rvectors object is re-used for every library and both shifts (a history of
+    # set_fft_R_to_k calls on one object), and fresh copies are used as well
+    dK2 = rng.uniform(0, 1, 3) / np.array(NK)
+    kall2 = kgrid + dK2[None, :]
+    ref, ref2 = {}, {}
     for key in keys:
         X = system.get_R_mat(key)
         for der in ders:
             ref[key, der] = np.array([oracles.ft_explicit(X, iR, lattice, kall[i], der=der, shifts_left_red=tl)
                                       for i in ksel])
-    for lib in libs:
-        rvec = system.rvec.copy()
-        rvec.set_fft_R_to_k(NK=NK, num_wann=nw, fftlib=lib, dK=dK)
+            ref2[key, der] = np.array([oracles.ft_explicit(X, iR, lattice, kall2[i], der=der, shifts_left_red=tl)
+                                       for i in ksel])
+    shared = system.rvec.copy()
+    settings = [(lib, shift, obj) for lib in libs for shift in (0, 1) for obj in ("shared", "fresh")]
+    settings = [settings[i] for i in rng.permutation(len(settings))]
+    kept = []    # (returned array, copy at return time, label): values handed out must not change through later calls
+    for lib, shift, obj in settings:
+        rvec = shared if obj == "shared" else system.rvec.copy()
+        rvec.set_fft_R_to_k(NK=NK, num_wann=nw, fftlib=lib, dK=dK2 if shift else dK)
+        rr = ref2 if shift else ref
         for key in keys:
-            for der in ders:
+            for der in (ders if rng.random() < 0.5 else ders[::-1]):
                 XR = rvec.apply_expdK(system.get_R_mat(key).copy())
                 out = rvec.R_to_k(XR, der=der, hermitian=False)
-                r = ref[key, der]
-                ctx.close(f"R_to_k[{lib}]!=explicit_sum", out[ksel], r, rtol=1e-10, scale=np.abs(r).max(),
-                          what=f"R_to_k lib={lib} key={key} der={der}", witness=wit)
+                r = rr[key, der]
+                ctx.close(f"R_to_k[{lib}]!=explicit_sum" + ("[object_re-used_with_another_shift_or_library]" if obj == "shared" else ""), out[ksel], r,
+                          rtol=1e-10, scale=np.abs(r).max(), what=f"R_to_k lib={lib} key={key} der={der} shift#{shift} object={obj}", witness=wit)
                 ctx.count(f"lib_{lib}")
+                kept.append((out, out.copy(), f"lib={lib} key={key} der={der} shift#{shift} object={obj}", np.abs(r).max()))
                 if key == "Ham":
                     ctx.close("unforced_output_not_hermitian", out, np.conj(np.swapaxes(out, 1, 2)), rtol=1e-10,
                               scale=np.abs(r).max(), what=f"Hermiticity lib={lib} der={der}", witness=wit)
+    for out, snap, label, sc in kept:
+        ctx.close("array_returned_by_R_to_k_changed_through_a_later_call", out, snap, rtol=1e-14, scale=sc, what=label, witness=wit)
+    ctx.count("returned_arrays_rechecked", len(kept))
     # explicit list of k-points (incl. points outside [0,1))
     klist = np.vstack([kall[ksel], rng.uniform(-2, 3, (3, 3))])
     rvec = system.rvec.copy()
